@@ -57,7 +57,11 @@ def sense_strategy():
         return bytes(R.sense_descriptor(key, asc, ascq, deferred=deferred, descriptors=body))
 
     byte = st.integers(0, 255)
+    # buffers too short to carry key/ASC/ASCQ (autosense cut short), down to no sense at all
+    short = st.one_of(st.just(b""), st.binary(max_size=7),
+                      st.binary(min_size=1, max_size=13).map(lambda x: bytes([0x70 | (x[0] & 0x81)]) + x[1:]))
     return st.one_of(
+        short,
         st.tuples(st.integers(0, 15), byte, byte, st.booleans(), st.integers(0, 1), st.integers(0, 234),
                   st.binary(max_size=9)).map(fixed),
         st.tuples(st.integers(0, 15), byte, byte, st.booleans(),
@@ -106,8 +110,12 @@ def judge(outcome, exc, status, sense, raw, transport, dev, cmd):
             expect(got is not None and bytes(got) == bytes(sense), "mismatch:raw_sense_not_attached",
                    transport=transport, got=got, want=sense)
             return
+        if len(sense) < 14 and ((sense[:1] or b"\0")[0] & 0x7F in (0x70, 0x71) or len(sense) < 4):
+            return  # too short to carry key/ASC/ASCQ: any exception distinguishes it from success
         expect(type(exc).__name__ == "CheckCondition" and isinstance(exc, dev.CheckCondition),
                "mismatch:check_condition_wrong_error", got=type(exc).__name__, error=repr(exc)[:200])
+        if (sense[0] & 0x7F) not in (0x70, 0x71, 0x72, 0x73):
+            return
         key, asc, ascq = sense_fields(sense)
         try:
             got = (exc.data["sense_key"], exc.asc, exc.ascq)
@@ -172,7 +180,7 @@ def check_history(case):
                 seen_fail = True
             elif seen_fail:
                 nt = True
-            if status == 2 and (sense[0] & 0x7F) != 0x70:
+            if status == 2 and (len(sense) < 14 or (sense[0] & 0x7F) != 0x70):
                 nt = True
             prev = c
     finally:
